@@ -171,7 +171,8 @@ fn history(idx: u64, len: usize, use_call: bool, rec: &mut Rec) {
 fn random_history(rng: &mut Rng, rec: &mut Rec) {
     let use_call = rng.chance(1, 2);
     let explicit = rng.chance(1, 3);
-    let variant = rng.below(4) as u8;
+    let variant = rng.below(8) as u8;
+    let explicit = explicit || variant & 4 != 0;
     let mut s = match crate::drive::body_sender_ex(None, explicit && variant & 2 == 0, use_call, variant) {
         Ok(s) => s,
         Err(e) => {
@@ -179,7 +180,12 @@ fn random_history(rng: &mut Rng, rec: &mut Rec) {
             return;
         }
     };
-    rec.cov(&format!("sender/{}{}", s.api(), if variant & 2 != 0 && !use_call { "/despite-method" } else { "" }));
+    rec.cov(&format!("sender/{}{}{}", s.api(), if variant & 2 != 0 && !use_call { "/despite-method" } else { "" }, if variant & 4 != 0 && explicit && variant & 2 == 0 { "/chunked-and-content-length" } else { "" }));
+    if let BodySender::Flow(f) = &mut s {
+        if !f.is_chunked() {
+            return rec.fail("C03/chunked-head-but-sized-writer", "the request head announces transfer-encoding: chunked but the body writer is not chunked".into());
+        }
+    }
     let src: Vec<u8> = crate::wire::payload(120_000, rng.below(200) as u8);
     let mut m = Model { terminated: false, consumed: 0, data_sum: 0, in_sum: 0, terminators: 0 };
     let mut pos = 0usize;
@@ -278,6 +284,8 @@ impl Property for P {
             ("data/room=0*".into(), 100),
             ("data/room=5*".into(), 100),
             ("after-finish/*".into(), 1000),
+            ("sender/flow/chunked-and-content-length".into(), 100),
+            ("sender/call/chunked-and-content-length".into(), 100),
             ("hook:tick:write_chunk".into(), 1000),
         ]
     }
